@@ -11,6 +11,7 @@ import (
 
 func init() {
 	sym.Register("c02.HOps", HOps)
+	sym.Register("c02.HOpsFixed", HOpsFixed)
 	sym.Register("c02.HDirRead", HDirRead)
 }
 
@@ -155,7 +156,19 @@ func flagName(f int) string {
 // then a history of L handle/path operations; every result and, after every
 // step, the content seen through the path and the size seen through every
 // handle are compared with the model (and natively with the kernel).
-func HOps(kind, len0, nh, L int) {
+func HOps(kind, len0, nh, L int) { run(kind, len0, nh, L, -1, NumOps) }
+
+// fixedFlags are the open flags used by HOpsFixed (longer histories).
+var fixedFlags = []int{posix.ORdwr, posix.ORdwr | posix.OAppend, posix.ORdonly, posix.OWronly | posix.OTrunc, posix.OWronly | posix.OAppend}
+
+// ops2 is the core operation set used by HOpsFixed.
+var ops2 = []string{"Seek", "Write", "Truncate", "PathTruncate", "Read", "WriteAt", "PathRemove", "ReadAt"}
+
+// HOpsFixed: histories of L operations from the core operation set on nh handles
+// opened with fixed flags (index fi into fixedFlags); nops = how many leading entries of ops2 are used.
+func HOpsFixed(kind, len0, nh, L, fi, nops int) { run(kind, len0, nh, L, fi, nops) }
+
+func run(kind, len0, nh, L, fixed, nops int) {
 	v := hx.NewBase(kind)
 	impl := world{sys: sysx.ImplSys{V: v}, files: &sysx.ImplFiles{V: v}}
 	mfs := posix.New()
@@ -191,8 +204,13 @@ func HOps(kind, len0, nh, L int) {
 	}
 	var hs []hnd
 	for i := 0; i < nh; i++ {
-		flag := sym.Int("flag") & (3 | posix.OCreate | posix.OExcl | posix.OTrunc | posix.OAppend)
-		sym.Assume(flag&3 != 3)
+		var flag int
+		if fixed >= 0 {
+			flag = fixedFlags[(fixed+i)%len(fixedFlags)]
+		} else {
+			flag = sym.Int("flag") & (3 | posix.OCreate | posix.OExcl | posix.OTrunc | posix.OAppend)
+			sym.Assume(flag&3 != 3)
+		}
 		sym.Label(fsName + "|open")
 		hi, ci := impl.files.Open(path, flag, 0o644)
 		hm, cm := model.files.Open(path, flag, 0o644)
@@ -213,12 +231,24 @@ func HOps(kind, len0, nh, L int) {
 	}
 	sym.Reach("opened")
 	for step := 0; step < L; step++ {
-		op := Ops[sym.Choose("op", NumOps)]
+		var op string
+		if fixed >= 0 {
+			op = ops2[sym.Choose("op", nops)]
+		} else {
+			op = Ops[sym.Choose("op", NumOps)]
+		}
 		h := hs[0]
 		if len(hs) > 1 {
 			h = hs[sym.Choose("h", len(hs))]
 		}
 		a := pickArgs(op, "")
+		if fixed >= 0 {
+			// longer histories: offsets and sizes straddle the file size only (the
+			// full 64-bit range is covered by the one-step histories)
+			sym.Assume(a.off >= -2 && a.off <= 6)
+			sym.Assume(a.size >= -1)
+			sym.Assume(a.wh >= -1 && a.wh <= 5)
+		}
 		label := fsName + "|" + op + "|" + h.flags
 		sym.Label(label)
 		var ri result
